@@ -51,8 +51,9 @@ type rwOp struct {
 }
 
 type rwTaskSpec struct {
-	Target  int `json:"t"` // index of the target shard this task's workflow hashes to
-	Variant int `json:"v"` // which workflow of that shard's pool
+	Target  int  `json:"t"`             // index of the target shard this task's workflow hashes to (under namespace ns-id-1)
+	Variant int  `json:"v"`             // which workflow of that shard's pool
+	Alt     bool `json:"alt,omitempty"` // same workflow id in the other namespace (ns-id-2): may be owned by another shard
 }
 
 type rwCase struct {
@@ -269,9 +270,6 @@ func rwPool(nt int) [][][2]string {
 	pool := make([][][2]string, nt)
 	for n := 0; ; n++ {
 		ns, wf := "ns-id-1", fmt.Sprintf("wf-%d", n)
-		if n%3 == 1 {
-			ns = "ns-id-2"
-		}
 		j := int(servercommon.WorkflowIDToHistoryShard(ns, wf, int32(nt))) - 1
 		if len(pool[j]) < 3 {
 			pool[j] = append(pool[j], [2]string{ns, wf})
@@ -402,6 +400,10 @@ func (w *rwWorld) emit(o rwOp) {
 	for _, ts := range o.Tasks {
 		j := ((ts.Target % w.c.NT) + w.c.NT) % w.c.NT
 		p := w.pool[j][((ts.Variant%3)+3)%3]
+		if ts.Alt {
+			p = [2]string{"ns-id-2", p[1]}
+			j = int(servercommon.WorkflowIDToHistoryShard(p[0], p[1], int32(w.c.NT))) - 1
+		}
 		id := s.nextID
 		s.nextID += int64(1 + o.IDGap%3)
 		marker := fmt.Sprintf("S%d-%d-c%d", s.idx, id, len(s.allTasks))
